@@ -106,9 +106,20 @@ fn short_commitment(b: &[u8]) -> bool {
     }
     false
 }
+/// Does the library check the length of commitment / generator slices (fix 838e50c)?  Probed without undefined behaviour: the
+/// 32-byte prefix of a 33-byte buffer holding a valid generator.  Only if it does are short values fed to the decoder.
+fn length_checked() -> bool {
+    use elements::pset::serialize::Deserialize;
+    static CELL: std::sync::OnceLock<bool> = std::sync::OnceLock::new();
+    *CELL.get_or_init(|| {
+        let g = zkp::Generator::new_unblinded(secp(), zkp::Tag::from([7u8; 32])).serialize();
+        <zkp::Generator as Deserialize>::deserialize(&g[..32]).is_err() && <zkp::Generator as Deserialize>::deserialize(&g[..]).is_ok()
+    })
+}
 pub fn mk(mode: &str, b: &[u8], mut tags: Vec<String>, nt: bool) -> Case {
     tags.push(format!("mode:{}", mode));
-    if short_commitment(b) {
+    if short_commitment(b) && length_checked() { tags.push("short-commitment-value".into()); }
+    if short_commitment(b) && !length_checked() {
         // replaced by a harmless fixed case so that the stream keeps its length
         return Case { text: format!("{} -", head("bin", &[])), tags: vec!["skipped:short-commitment-ub".into()], nontrivial: false };
     }
@@ -172,7 +183,7 @@ fn eval_bin(mode: &str, b: &[u8]) -> Out {
                 Ok(p2) => {
                     let c2 = serialize(&p2);
                     if p2 != p { fail = Some("fixpoint-equal|serialize(deserialize(bs)) decodes to a different PSET".into()); }
-                    else if c2 != c { fail = Some(if f9 { "F9-taptree-reversed|re-serialization is not a fixpoint: a tap tree with >= 2 leaves is written in reversed leaf order".into() } else { "fixpoint-bytes|serialize(deserialize(c)) != c".into() }); }
+                    else if c2 != c { fail = Some(if f9 { "F9-taptree-reversed|re-serialization is not a fixpoint: a tap tree with >= 2 leaves is written in reversed leaf order (repaired by aee9a45: returned)".into() } else { "fixpoint-bytes|serialize(deserialize(c)) != c".into() }); }
                     (if c2 == c { "=".to_string() } else { hx(&c2) }, true)
                 }
             };
@@ -184,6 +195,7 @@ fn eval_bin(mode: &str, b: &[u8]) -> Out {
                 fail = Some(match mode {
                     "rejdup" => if dup_is_global_flag(b) { "F17-dup-elements-modifiable|a duplicated global PSBT_ELEMENTS_GLOBAL_TX_MODIFIABLE pair is accepted (assigned without an is_none() test); the last value wins".to_string() } else { "dup-accepted|an encoding with a duplicated key is accepted".to_string() },
                     "rejmissing" => "missing-accepted|an encoding without a mandatory field is accepted".to_string(),
+                    "rejlen" => "F18-commitment-length-unchecked|a commitment / generator value whose length is not 33 bytes is accepted (repaired by 838e50c: returned)".to_string(),
                     "rejcount" => "count-accepted|an encoding whose declared counts differ from the number of maps is accepted".to_string(),
                     _ => "preimage-accepted|an encoding with an invalid hash preimage is accepted".to_string(),
                 });
@@ -259,7 +271,7 @@ pub fn eval(case: &str) -> Out {
         }
         "vcanon" => Out::ok("harnesserr vcanon-is-model-only".into()),
         "shortcomm" => eval_shortcomm(&arg(10).unwrap_or_default()),
-        _ => match arg(10) { Some(b) => if short_commitment(&b) { Out::ok("harnesserr refused: a commitment value shorter than 33 bytes would be read out of bounds".into()) } else { eval_bin(mode, &b) }, None => Out::ok("harnesserr hex".into()) },
+        _ => match arg(10) { Some(b) => if short_commitment(&b) && !length_checked() { Out::ok("harnesserr refused: a commitment value shorter than 33 bytes would be read out of bounds".into()) } else { eval_bin(mode, &b) }, None => Out::ok("harnesserr hex".into()) },
     }
 }
 
@@ -542,6 +554,21 @@ pub fn gen(rng: &mut ChaCha20Rng, n: usize, thorough: bool) -> Vec<Case> {
     // the duplicated global elements tx-modifiable flag (F17)
     { let mut p = base(rng, 1, 1); p.global.elements_tx_modifiable_flag = Some(1); let b = serialize(&p);
       if let Some((mut maps, _)) = parse_maps(&b) { if let Some(j) = maps[0].iter().position(|q| q.0 == 0xfc && q.1 == b"\x04pset\x01") { let mut d = maps[0][j].clone(); d.2 = vec![7]; maps[0].push(d); out.push(mk("rejdup", &unparse(&maps), vec!["src:targeted-dup-global-flag".into()], true)); } } }
+    // F18: commitment / generator values of 32 and 34 bytes inside real PSETs (only when the safe probe says the length is checked)
+    if length_checked() {
+        for which in 0..4 {
+            let mut p = base(rng, 1, 1);
+            match which { 0 => { p.outputs_mut()[0].asset_comm = Some(rgenerator(rng)); } 1 => { p.outputs_mut()[0].amount_comm = Some(rcommitment(rng)); }
+                          2 => { p.inputs_mut()[0].issuance_value_comm = Some(rcommitment(rng)); } _ => { p.inputs_mut()[0].issuance_inflation_keys_comm = Some(rcommitment(rng)); } }
+            let b = serialize(&p);
+            for longer in [false, true] {
+                if let Some((mut maps, _)) = parse_maps(&b) {
+                    for m in maps.iter_mut().skip(1) { for q in m.iter_mut() { if q.0 == 0xfc && q.1.len() == 6 && &q.1[..5] == b"\x04pset" && q.2.len() == 33 && [8u8, 9, 10, 11].contains(&q.2[0]) { if longer { q.2.push(0) } else { q.2.pop(); } } } }
+                    out.push(mk("rejlen", &unparse(&maps), vec!["src:targeted-commitment-length".into(), format!("len:{}", if longer { 34 } else { 32 })], false));
+                }
+            }
+        }
+    }
     // F18 probes: a valid generator / commitment followed by one more byte
     for _ in 0..2 { let mut g = rgenerator(rng).serialize().to_vec(); g.push(rng.gen()); out.push(Case { text: format!("{} {}", head("shortcomm", &g), hex(&g)), tags: vec!["src:targeted-commitment-length".into(), "mode:shortcomm".into()], nontrivial: true });
                     let mut c = rcommitment(rng).serialize().to_vec(); c.push(rng.gen()); out.push(Case { text: format!("{} {}", head("shortcomm", &c), hex(&c)), tags: vec!["src:targeted-commitment-length".into(), "mode:shortcomm".into()], nontrivial: true }); }
